@@ -118,7 +118,7 @@ class Concurrent(Instance):
         self.producers, self.consumers, self.caps, self.sizes, self.expect_fit, self.rp = producers, consumers, caps, sizes, expect_fit, role_prefix
         self.early_close = early_close
         self.required_witnesses = ("all_done", "producer_waited", "consumer_waited")
-        self.max_wall = 2400
+        self.max_wall = 7200
         self.bounds = {"producers": producers, "consumers": consumers, "capacity": f"one of {caps}", "item_sizes": f"symbolic over {sizes}" + (" (each item fits the capacity)" if expect_fit else " (may exceed the capacity)"),
                        "interleavings": "every schedule of lock/wait/notify points; which waiter a notify_one wakes is a free choice; no spurious wake-ups"}
 
